@@ -410,7 +410,7 @@ pub fn run(tier: Tier, seed: u64) -> MonOut {
     }
     MonOut {
         report: rep,
-        rule: "applications built from generated TOML (distance / speed traversal, turn delays, road classes, small iteration limits that terminate long searches, plugins inject / grid_search / vertex_rtree / load_balancer haversine|numeric|categorical in that order, parallelism 1..32) x batches of 1..120 (thorough 300) queries tagged with unique qids: valid, unreachable, terminated, grid-search (1..9 expansions), and 15 % malformed of 14 classes; reference = every query run alone with parallelism 1; then 4 (thorough 6) batch runs per application with random parallelism override (1,2,3,4,5,7,8,15,16,17,32 or none), random permutation, and seeded yield/sleep injection at QueryStart / QueryEnd / BeforeWrite hook events; responses compared as a multiset of (qid+expansion, error text, route path, route cost, final state at 9 digits). non-trivial = batch of >= 6 queries for which >= 2 distinct completion orders were observed; distinct by application and batch".into(),
+        rule: "applications built from generated TOML (distance / speed traversal, turn delays, road classes or vehicle restrictions, small iteration limits that terminate long searches, plugins inject / grid_search / vertex_rtree / load_balancer haversine|numeric|categorical in that order, parallelism 1..32) x batches of 1..120 (thorough 300) queries tagged with unique qids: valid, unreachable, terminated, grid-search (1..9 expansions), and 15 % malformed of 16 classes; reference = every query run alone with parallelism 1; then 4 (thorough 6) batch runs per application with random parallelism override (1,2,3,4,5,7,8,15,16,17,32 or none), random permutation, and seeded yield/sleep injection at QueryStart / QueryEnd / BeforeWrite hook events; responses compared as a multiset of (qid+expansion, error text, route path, route cost, final state at 9 digits). non-trivial = batch of >= 6 queries for which >= 2 distinct completion orders were observed; distinct by application and batch".into(),
         assumptions: vec![
             "the reference for a query is the same application answering it alone (parallelism 1)".into(),
             "iteration limits (deterministic messages) are used for terminated queries; runtime limits are not, their outcome is time dependent by design".into(),
